@@ -24,7 +24,7 @@ Proof.
       destruct (t - l_last s <=? lc_window c) eqn:Hw; simpl.
       * destruct (lc_after c <=? l_count s + 1) eqn:Ha; simpl;
           repeat split; reflexivity.
-      * repeat split; reflexivity.
+      * destruct (lc_after c <=? 1) eqn:Ha; simpl; repeat split; reflexivity.
     + repeat split; assumption || reflexivity.
     + repeat split; assumption || reflexivity.
     + repeat split; assumption || reflexivity.
@@ -62,10 +62,27 @@ Proof.
 Qed.
 
 Lemma c04_window_restart_lemma : forall c s t, lc_window c < t - l_last s ->
-  l_count (lstep c s (LFail t)) = 1 /\ l_locked (lstep c s (LFail t)) = l_locked s.
+  let s' := lstep c s (LFail t) in
+  l_count s' = 1 /\
+  (2 <= lc_after c -> l_locked s' = l_locked s) /\
+  (lc_after c <= 1 -> forall t', locked_at s' t' = true <-> t' < t + lc_duration c).
 Proof.
-  intros c s t Hgap. simpl.
-  apply Z.leb_gt in Hgap. rewrite Hgap. simpl. split; reflexivity.
+  intros c s t Hgap. cbv zeta. unfold locked_at. simpl.
+  apply Z.leb_gt in Hgap. rewrite Hgap. simpl. split; [reflexivity|]. split.
+  - intros H2. assert (Hn : (lc_after c <=? 1) = false) by (apply Z.leb_gt; lia). rewrite Hn. reflexivity.
+  - intros H1 t'. apply Z.leb_le in H1. rewrite H1. apply Z.ltb_lt.
+Qed.
+
+(* the property's sentence itself: whenever a failure leaves the count at or above LockAfter,
+   the account is locked for LockDuration from that failure *)
+Lemma c04_locked_as_soon_as_lemma : forall c s t,
+  let s' := lstep c s (LFail t) in
+  (lc_after c <= l_count s' -> forall t', locked_at s' t' = true <-> t' < t + lc_duration c) /\
+  (l_count s' < lc_after c -> l_locked s' = l_locked s).
+Proof.
+  intros c s t. cbv zeta. unfold locked_at. simpl. split.
+  - intros Hge t'. apply Z.leb_le in Hge. rewrite Hge. apply Z.ltb_lt.
+  - intros Hlt. apply Z.leb_gt in Hlt. rewrite Hlt. reflexivity.
 Qed.
 
 Lemma c04_fail_run_lemma : forall c rh (ts : list Z),
